@@ -310,6 +310,39 @@ TARGETS = [
                   arm_exprs={"Self::UnsignedInt": {"counter.into()": "((valueCounterDefault counter).map Int.toNat)"},
                              "Self::SignedInt": {"counter.into()": "(valueCounterDefault counter)"},
                              "Self::ContentAddress": {"pack_id_counter.into()": "((valueCounterDefault pack_id_counter).map Int.toNat)"}})),
+    # ---- the creator's entry serialiser: size of a layout property, variant padding, bytes of one property of one entry
+    dict(name="layoutPropertySize", group="Entry", file="src/creator/directory_pack/layout/property.rs", fn="size",
+         after=r"impl<PN: PropertyName> Property<PN> \{",
+         enums=[dict(rust="Property", file="src/creator/directory_pack/layout/property.rs", lean="SrcProperty", declare=False,
+                     types={"&'static str": "List UInt8", "PN": "List UInt8", "u8": "Nat", "ByteSize": "Nat", "StoreHandle": "Nat",
+                            "Option<ByteSize>": "Option Nat", "Option<(ByteSize, StoreHandle)>": "Option (Nat × Nat)",
+                            "Option<u16>": "Option Nat", "Option<u64>": "Option Nat", "Option<i64>": "Option Int"})],
+         cfg=dict(params=[("p", "SrcProperty")], ret="Nat", paths={"self": "p"}, methods={"is_some": "({recv}).isSome"}, block_match=True)),
+    dict(name="fillToSize", group="Entry", file="src/creator/directory_pack/layout/properties.rs", fn="fill_to_size",
+         cfg=dict(params=[("entrySize", N), ("size_", N)], ret="List Nat", fuel="size_ + 1",
+                  prelude="let pads : List Nat := []", prelude_scope=["pads"], result="pads",
+                  local_types={"pads": "List Nat"},
+                  exprs={"self.entry_size()": "entrySize"}, paths={"size": "size_"},
+                  push_stmts={"self.0.push(Property::Padding(16))": ("pads", "16"),
+                              "self.0.push(Property::Padding(padding_size as u8))": ("pads", "(padding_size % 256)")})),
+    dict(name="entryPropertyWrites", group="Entry", file="src/creator/directory_pack/layout/properties.rs", fn="serialize_entry",
+         inner_block=r"for key in keys",
+         enums=[dict(rust="Property", file="src/creator/directory_pack/layout/property.rs", lean="SrcProperty", declare=False,
+                     types={"&'static str": "List UInt8", "PN": "List UInt8", "u8": "Nat", "ByteSize": "Nat", "StoreHandle": "Nat",
+                            "Option<ByteSize>": "Option Nat", "Option<(ByteSize, StoreHandle)>": "Option (Nat × Nat)",
+                            "Option<u16>": "Option Nat", "Option<u64>": "Option Nat", "Option<i64>": "Option Int"}),
+                dict(rust="Value", file="src/creator/directory_pack/value.rs", lean="SrcEntryValue",
+                     types={"ContentAddress": "(Nat × Nat)", "u64": "Nat", "i64": "Int", "Box<Word<u64>>": "Nat", "Box<Word<i64>>": "Int",
+                            "Box<ValueHandle>": "Nat", "Box<ArrayS<0>>": "(Nat × List UInt8 × Nat)", "Box<ArrayS<1>>": "(Nat × List UInt8 × Nat)",
+                            "Box<ArrayS<2>>": "(Nat × List UInt8 × Nat)", "Box<Array>": "(Nat × List UInt8 × Nat)"})],
+         cfg=dict(params=[("key", "SrcProperty"), ("val", "SrcEntryValue"), ("variant_id", "Option Nat")], ret="List (Nat × Nat)",
+                  writes=True, partial=True, write_data=True, vec_macro="UInt8", assert_panics=True,
+                  prelude="let out : List (Nat × Nat) := []", prelude_scope=["out"], result="out",
+                  exprs={"entry.value(name).as_ref()": "val", "deported_info.as_ref().unwrap()": "(deported_info.getD (0, 0))"},
+                  methods={"get": "{recv}", "into_u64": "{recv}", "into_u16": "{recv}", "as_slice": "{recv}", "len": "({recv}).length",
+                           "is_some": "({recv}).isSome", ".size": "({recv}).1", ".data": "({recv}).2.1", ".value_id": "({recv}).2.2",
+                           ".pack_id": "({recv}).1", ".content_id": "({recv}).2"},
+                  serializes={"variant_id.unwrap()": ("(variant_id.getD 0)", "VariantIdx")})),
 ]
 
 
@@ -499,8 +532,8 @@ def apply_enums(t):
     return "\n".join(decls)
 
 
-GROUP_IMPORTS = {"Stats": ["JubakoModel.Generated.FuncsBytes", "JubakoModel.Generated.FuncsDir"], "Lookup": [], "Fs": ["JubakoModel.Model.BasicCreatorFs"], "Sync": ["JubakoModel.Model.SyncVec"], "Pipe": ["JubakoModel.Model.Pipeline"], "Proto": ["JubakoModel.Model.FileCursor"], "Search": ["JubakoModel.Generated.FuncsBytes"], "Content": ["JubakoModel.Generated.FuncsBytes"], "Dir": ["JubakoModel.Generated.FuncsBytes", "JubakoModel.Model.Bytes"]}
-GROUP_ORDER = ["Bytes", "Content", "Dir", "Order", "Search", "View", "Check", "Proto", "Pipe", "Sync", "Fs", "Lookup", "Stats"]
+GROUP_IMPORTS = {"Entry": ["JubakoModel.Generated.FuncsBytes", "JubakoModel.Generated.FuncsDir"], "Stats": ["JubakoModel.Generated.FuncsBytes", "JubakoModel.Generated.FuncsDir"], "Lookup": [], "Fs": ["JubakoModel.Model.BasicCreatorFs"], "Sync": ["JubakoModel.Model.SyncVec"], "Pipe": ["JubakoModel.Model.Pipeline"], "Proto": ["JubakoModel.Model.FileCursor"], "Search": ["JubakoModel.Generated.FuncsBytes"], "Content": ["JubakoModel.Generated.FuncsBytes"], "Dir": ["JubakoModel.Generated.FuncsBytes", "JubakoModel.Model.Bytes"]}
+GROUP_ORDER = ["Bytes", "Content", "Dir", "Order", "Search", "View", "Check", "Proto", "Pipe", "Sync", "Fs", "Lookup", "Stats", "Entry"]
 
 
 def main():
@@ -547,6 +580,9 @@ def main():
             elif t.get("let"):
                 text = rs2lean.translate_expr(name, rs2lean.let_initialiser(body, t["let"]), t["cfg"])
             else:
+                if t.get("inner_block"):
+                    import re as _re
+                    body = block_after(_re.sub(r"//[^\n]*", "", body), t["inner_block"])
                 text = rs2lean.translate(name, body, t["cfg"])
             text = (decls + "\n" if decls else "") + text
             if name in pinned and pinned[name] != text:
